@@ -1,4 +1,5 @@
 import NGF.Model.FileMgr
+import NGF.Model.GenPaths
 import NGF.Model.Proto
 /-
 Driver entry for C11.
@@ -11,6 +12,12 @@ Driver entry for C11.
   judge in  : scenario fields plus `obs=<o>;<o>;…`, one `o` per step:
               `<outcome>|<ops>|<fs>|<last>|<failinfo>`   failinfo: `-` | `<opkind>@<path>`
   judge out : `ok` | `fail <clause> step=<i> path=<p>`
+  genpaths in : `kp=<ns>/<name>,… bd=<ns>/<name>,… sn=<ctx>/<ns>/<name>,… csp=<ns>/<name>,… obs=<kind>/<ns>/<name>,…
+                 plus=<0|1> ca=<0|1> cert=<0|1> key=<0|1>`   (`-` = empty list; ctx: main|http|server|location;
+                 kind: ext|redirect|int) — the objects behind a `dataplane.Configuration`
+  genpaths out: `<path>,<r|s>+…` = `GenPaths.generatedPaths (Objs.toIn …)` in generation order
+  genjudge in : the genpaths fields plus `real=<path>,<r|s>+…` (what the real `Generate` returned)
+  genjudge out: `ok` | `fail <clause> path=<p>`
 -/
 namespace NGF.FileMgr
 open NGF.Proto
@@ -66,22 +73,24 @@ def parseFault (s : String) : Option (Nat × Fault) :=
 
 def schedOf (l : List (Nat × Fault)) : Sched := fun k => l.lookup k
 
-def parseSched (s : String) : Option Sched := (parseList s "+" parseFault).map schedOf
+def parseFaults (s : String) : Option (List (Nat × Fault)) := parseList s "+" parseFault
 
-/-- a parsed step keeps the file list for the judge -/
+def parseSched (s : String) : Option Sched := (parseFaults s).map schedOf
+
+/-- a parsed step keeps the file list and the list of injected faults for the judge -/
 inductive PStep
-  | replace (files : List File) (sch : Sched)
-  | start (sch : Sched)
+  | replace (files : List File) (faults : List (Nat × Fault))
+  | start (faults : List (Nat × Fault))
 
 def parseStep (s : String) : Option PStep :=
   match s.splitOn "|" with
-  | ["R", fl, sc] => do pure (.replace (← parseList fl "+" parseFile) (← parseSched sc))
-  | ["S", sc] => do pure (.start (← parseSched sc))
+  | ["R", fl, sc] => do pure (.replace (← parseList fl "+" parseFile) (← parseFaults sc))
+  | ["S", sc] => do pure (.start (← parseFaults sc))
   | _ => none
 
 def PStep.toStep : PStep → Step
-  | .replace f s => .replace s f
-  | .start s => .start s
+  | .replace f s => .replace (schedOf s) f
+  | .start s => .start (schedOf s)
 
 def showOutcome : Outcome → String
   | .ok => "ok" | .failed => "fail" | .crashed => "crash"
@@ -117,12 +126,15 @@ def modelLine (line : String) : String :=
 
 structure Obs where
   out  : String
+  ops  : Nat             -- number of OSFileManager operations the call performed
   disk : FS
+  last : List String     -- lastWrittenPaths after the call
   fail : String   -- "-" or "<opkind>@<path>"
 
 def parseObs (s : String) : Option Obs :=
   match s.splitOn "|" with
-  | [o, _, fs, _, fi] => do pure ⟨o, ← parseFS fs, fi⟩
+  | [o, n, fs, l, fi] => do
+    pure ⟨o, ← n.toNat?, ← parseFS fs, if l == "-" then [] else l.splitOn "+", fi⟩
   | _ => none
 
 structure JSt where
@@ -130,6 +142,8 @@ structure JSt where
   boot   : FS            -- disk right after the last completed start-up
   succ   : List String   -- paths of the sets replaced successfully since the last start-up
   failed : List String   -- paths whose chmod/write failed in an earlier failed replacement
+  up     : Bool := false -- a start-up has completed and no crash happened since: a `ManagerImpl` exists
+  last   : List String := []  -- lastWrittenPaths before the step
 
 def isPrefixNat : List Nat → List Nat → Bool
   | [], _ => true
@@ -183,6 +197,15 @@ def startClause (prev disk : FS) : Option String :=
   | some m => some m
   | none => bootKept prev disk
 
+/-- **recovery is live**: a `ReplaceFiles` call during which the fault schedule injected nothing (every scheduled
+operation index lies beyond the operations the call performed) returns nil, whatever earlier calls left behind.
+The reported path is a tracked path that was not on disk when the call began (the usual reason), if any. -/
+def faultFreeClause (j : JSt) (faults : List (Nat × Fault)) (o : Obs) : Option String :=
+  if j.up && o.out == "fail" && faults.all (fun kf => decide (o.ops ≤ kf.1)) then
+    let p := (j.last.find? fun q => (get j.prev q).isNone).getD "-"
+    some s!"fault-free-replacement-fails path={p}"
+  else none
+
 def failedPath (fi : String) : Option String :=
   match fi.splitOn "@" with
   | [k, p] => if k == "chmod" || k == "write" then some p else none
@@ -194,20 +217,23 @@ def judgeSteps : Nat → JSt → List PStep → List Obs → Option String
   | i, j, st :: sts, o :: os =>
     let verdict : Option String × JSt :=
       match st with
-      | .replace files _ =>
+      | .replace files faults =>
         match secretClause j.prev files o.disk with
         | some m => (some m, j)
         | none =>
           if o.out == "ok" then
             (successClause j files o.disk,
-             { j with prev := o.disk, succ := j.succ ++ files.map (·.path) })
+             { j with prev := o.disk, succ := j.succ ++ files.map (·.path), last := o.last })
           else
             let fl := if o.out == "fail" then (failedPath o.fail).toList else []
-            (none, { j with prev := o.disk, failed := j.failed ++ fl })
+            (faultFreeClause j faults o,
+             { j with prev := o.disk, failed := j.failed ++ fl, up := j.up && o.out != "crash",
+                      last := if j.up then o.last else j.last })
       | .start _ =>
         if o.out == "ok" then
-          (startClause j.prev o.disk, { j with prev := o.disk, boot := o.disk, succ := [], failed := [] })
-        else (bootKept j.prev o.disk, { j with prev := o.disk })
+          (startClause j.prev o.disk,
+           { j with prev := o.disk, boot := o.disk, succ := [], failed := [], up := true, last := [] })
+        else (bootKept j.prev o.disk, { j with prev := o.disk, up := false, last := [] })
     match verdict with
     | (some m, _) => some s!"{m.replace " path=" s!" step={i} path="}"
     | (none, j') => judgeSteps (i + 1) j' sts os
@@ -218,10 +244,85 @@ def judgeLine (line : String) : String :=
         field fs "obs" >>= (parseList · ";" parseObs) with
   | some init, some steps, some obs =>
     if steps.length != obs.length then "bad-op"
-    else match judgeSteps 0 ⟨init, init, [], []⟩ steps obs with
+    else match judgeSteps 0 { prev := init, boot := init, succ := [], failed := [] } steps obs with
       | none => "ok"
       | some m => if m == "bad-op" then m else "fail " ++ m
   | _, _, _ => "bad-op"
+
+/-! ### the generated file set (`NGF.GenPaths`) on the objects of a real configuration -/
+
+open NGF.GenPaths in
+def parsePair (s : String) : Option (Name × Name) :=
+  match s.splitOn "/" with
+  | [a, b] => some (a.toList, b.toList)
+  | _ => none
+
+open NGF.GenPaths in
+def parseSnip (s : String) : Option (SnipCtx × Name × Name) :=
+  match s.splitOn "/" with
+  | [c, a, b] => do
+    let c ← if c == "main" then some SnipCtx.main else if c == "http" then some .http
+            else if c == "server" then some .server else if c == "location" then some .location else none
+    pure (c, a.toList, b.toList)
+  | _ => none
+
+open NGF.GenPaths in
+def parseObsP (s : String) : Option (ObsKind × Name × Name) :=
+  match s.splitOn "/" with
+  | [k, a, b] => do
+    let k ← if k == "ext" then some ObsKind.ext else if k == "redirect" then some .redirect
+            else if k == "int" then some .int else none
+    pure (k, a.toList, b.toList)
+  | _ => none
+
+def parseFlag (s : String) : Option Bool := if s == "1" then some true else if s == "0" then some false else none
+
+open NGF.GenPaths in
+def parseObjs (fs : List String) : Option Objs := do
+    pure { keyPairs := ← field fs "kp" >>= (parseList · "," parsePair)
+           bundles := ← field fs "bd" >>= (parseList · "," parsePair)
+           snippets := ← field fs "sn" >>= (parseList · "," parseSnip)
+           csPolicies := ← field fs "csp" >>= (parseList · "," parsePair)
+           obsPolicies := ← field fs "obs" >>= (parseList · "," parseObsP)
+           plus := ← field fs "plus" >>= parseFlag
+           mgmtCA := ← field fs "ca" >>= parseFlag
+           mgmtCert := ← field fs "cert" >>= parseFlag
+           mgmtKey := ← field fs "key" >>= parseFlag }
+
+open NGF.GenPaths in
+def genPathsLine (line : String) : String :=
+  match parseObjs (line.splitOn " ") with
+  | some o =>
+    let l := generatedPaths o.toIn
+    if l.isEmpty then "-"
+    else "+".intercalate (l.map fun pt => s!"{String.ofList pt.1},{if pt.2 == FType.secret then "s" else "r"}")
+  | none => "bad-op"
+
+def parseReal (s : String) : Option (String × String) :=
+  match s.splitOn "," with
+  | [p, t] => some (p, t)
+  | _ => none
+
+/-- the property on the list the REAL `Generate` returned for these objects: no path twice; every path directly
+in a managed folder; the PEM file of every key pair present; every secret path (`GenPaths.secretPaths`) has the
+secret type — else it would be written with the world-readable mode. -/
+def genJudgeLine (line : String) : String :=
+  let fs := line.splitOn " "
+  match parseObjs fs, field fs "real" >>= (parseList · "+" parseReal) with
+  | some o, some real =>
+    let paths := real.map (·.1)
+    let twice := paths.find? fun p => (paths.filter (· == p)).length > 1
+    let outside := paths.find? fun p => !managedFolders.contains (dirOf p)
+    let secret := (GenPaths.secretPaths o.toIn).map String.ofList
+    let missing := (o.toIn.keyPairIds.map fun id => String.ofList (GenPaths.pemEntry id).path).find? fun p => !paths.contains p
+    let exposed := real.find? fun pt => secret.contains pt.1 && pt.2 != "s"
+    match twice, outside, missing, exposed with
+    | some p, _, _, _ => s!"fail generated-path-twice path={p}"
+    | _, some p, _, _ => s!"fail generated-path-outside-managed-folders path={p}"
+    | _, _, some p, _ => s!"fail key-pair-file-missing path={p}"
+    | _, _, _, some pt => s!"fail key-file-not-secret-type path={pt.1}"
+    | _, _, _, _ => "ok"
+  | _, _ => "bad-op"
 
 def driver (args : List String) : IO UInt32 := do
   let stdin ← IO.getStdin
@@ -229,7 +330,9 @@ def driver (args : List String) : IO UInt32 := do
   match args with
   | ["model"] => forEachLine stdin fun l => stdout.putStrLn (modelLine l)
   | ["judge"] => forEachLine stdin fun l => stdout.putStrLn (judgeLine l)
-  | _ => IO.eprintln "usage: C11 model|judge"; return 2
+  | ["genpaths"] => forEachLine stdin fun l => stdout.putStrLn (genPathsLine l)
+  | ["genjudge"] => forEachLine stdin fun l => stdout.putStrLn (genJudgeLine l)
+  | _ => IO.eprintln "usage: C11 model|judge|genpaths|genjudge"; return 2
   return 0
 
 end NGF.FileMgr
